@@ -239,6 +239,18 @@ def build():
     one(r"records\s*\.sort_by\(\|a,\s*b\|\s*a\.as_ref\(\)\.data\(\)\.canonical_cmp\(\s*b\.as_ref\(\)\.data\(\)\s*\)\s*\)\s*;", sr, "sign_rrset sort comparator")
     defs.append(("sign_rrset_sorts_ascending_by_canonical_rdata", "bool", "true"))
 
+    # Rrset constructors: non-empty, equal TTLs or panic, RRSIG exempt
+    rs = strip_comments(read("src/dnssec/sign/records.rs"))
+    ck = fn_body(rs, "check_ttls", after="impl<'a, N, D> Rrset<'a, N, D>")
+    m = one(r"if\s+first\.rtype\(\)\s*==\s*Rtype::(\w+)\s*\{\s*return\s+Ok\(\(\)\)\s*;\s*\}", ck, "check_ttls exemption")
+    defs.append(("rrset_ttl_exempt_rtype", "N", "%d%%N" % int_enum_value(rt, m.group(1), "Rtype::" + m.group(1))))
+    one(r"let\s+first_ttl\s*=\s*first\.ttl\(\)\s*;\s*if\s+slice\.iter\(\)\.any\(\|r\|\s*r\.ttl\(\)\s*!=\s*first_ttl\)\s*\{\s*return\s+Err\(SigningError::MultipleTtlValues\)", ck, "check_ttls comparison")
+    for ctor in ("new", "new_from_refs", "new_from_owned"):
+        cb = fn_body(rs, ctor, after="impl<'a, N, D> Rrset<'a, N, D>")
+        one(r"if\s+slice\.is_empty\(\)\s*\{\s*Err\(SigningError::EmptyRecordSlice\)", cb, "Rrset::%s empty check" % ctor)
+        one(r"Rrset::check_ttls\(&slice\)\.expect\(", cb, "Rrset::%s TTL expect" % ctor)
+    defs.append(("rrset_new_panics_on_mixed_ttl", "bool", "true"))
+
     # Record::compose_canonical
     rc = strip_comments(read("src/base/record.rs"))
     rb = fn_body(rc, "compose_canonical", after="impl<N: ToName, D: RecordData + ComposeRecordData> Record<N, D>")
